@@ -17,6 +17,15 @@ Theorem C09_verify_iff : forall signed t, facts_consistent t ->
 Proof. exact verify_iff. Qed.
 Print Assumptions C09_verify_iff.
 
+(* the count clauses, explicitly: acceptance implies one signature per input and
+   1..65535 inputs / outputs; conversely (verify_iff) a well-formed transaction
+   with exactly 65535 inputs or outputs is accepted — the encoder's limit is
+   65535 elements, `t_size t = Some _` holds up to and including that count *)
+Theorem C09_verify_ok_counts : forall signed t, facts_consistent t -> verify signed t = Val None ->
+  len (t_sigs t) = len (t_ins t) /\ 1 <= len (t_ins t) <= 65535 /\ 1 <= len (t_outs t) <= 65535.
+Proof. exact verify_ok_counts. Qed.
+Print Assumptions C09_verify_ok_counts.
+
 (* the verifier never panics, whatever the facts *)
 Theorem C09_verify_total : forall signed t, verify signed t <> Panic.
 Proof. exact verify_total. Qed.
@@ -35,7 +44,7 @@ Proof. exact well_formed_b_spec. Qed.
 Print Assumptions C09_well_formed_b.
 
 Theorem C09_well_formed_fast_b : forall signed t,
-  Forall (fun o => in_u 64 (o_coins o) /\ in_u 64 (o_hours o)) (t_outs t) ->
+  Forall (fun o => 0 <= o_addr o /\ 0 <= o_coins o /\ 0 <= o_hours o) (t_outs t) ->
   (well_formed_fast_b signed t = true <-> well_formed signed t).
 Proof. exact well_formed_fast_b_spec. Qed.
 Print Assumptions C09_well_formed_fast_b.
